@@ -71,6 +71,8 @@ def obligations(tier):
             for strict in (True, False):
                 obs.append({'h': 'cli_batch', 'els': list(combo), 'strict': strict, '_weight': 4 ** n})
     obs.append({'h': 'cli_batch', 'els': None, 'strict': True})          # batch-level error
+    for fault, add in it.product((False, True), repeat=2):
+        obs.append({'h': 'cli_batch_reuse', 'fault': fault, 'add': add})
     nmax = 2 if tier == 'quick' else 3
     terms = (('ok', 'errresp'), ('unlisted_exc', 'undecodable'), ('nonresponse', 'mismatch'))
     for req, term, ntr in it.product(('single', 'batch', 'notif', 'call', 'batchcall'), terms, (0, 2)):
@@ -364,6 +366,51 @@ def h_cli_batch(ob):
         return _compare_clients(env, lambda kind: (lambda n, doc, notif: body),
                                 lambda c: c.batch.add('m', 1).notify('n', 0).add('m', a=2).call(), body, tracers=1,
                                 client_kw=lambda kind: {'strict': ob['strict']})
+
+    return run
+
+
+def h_cli_batch_reuse(ob):
+    """ONE batch object used twice (after a transport fault, or with more calls added in between): both halves must put
+    the same documents on the wire and hand back the same results."""
+    def run(env):
+        import pjrpc.client
+
+        def mk_script(kind):
+            def script(n, doc, notif):
+                if n == 0 and ob['fault']:
+                    raise ConnectionError('first send fails')
+                if notif:
+                    return None
+                return [{'jsonrpc': '2.0', 'id': e['id'], 'result': e['params'][0]} for e in doc if 'id' in e]
+            return script
+
+        x, y = env.int('x'), env.int('y')
+
+        def call(c):
+            b = c.batch.add('m', x)
+            steps = [lambda: b.call(), (lambda: b.add('m', y).call()) if ob['add'] else (lambda: b.call())]
+            if isinstance(c, pjrpc.client.AbstractAsyncClient):
+                async def go():
+                    outs = []
+                    for st in steps:
+                        try:
+                            r = await st()
+                            outs.append(['ok', None if r is None else list(r)])
+                        except ConnectionError:
+                            outs.append(['exc', 'ConnectionError'])
+                    return outs
+                return go()
+            outs = []
+            for st in steps:
+                try:
+                    r = st()
+                    outs.append(['ok', None if r is None else list(r)])
+                except ConnectionError:
+                    outs.append(['exc', 'ConnectionError'])
+            return outs
+
+        return _compare_clients(env, mk_script, call, ('reuse', ob['fault'], ob['add']), tracers=1)
 
     return run
 
